@@ -9,6 +9,8 @@
 // sequences) each gated request kind {insert_local, delete_prefix, get_exact, get_many, get_sync_peers, export_secret_key, subscribe, get_state: usable iff
 // handles > 0; insert_remote, sync_initial_message, sync_process_message: iff handles > 0 and sync enabled} is probed once against the model.
 // Third part: shutdown while a get_many reply stream is open and unread returns the store within 40 s, and a later request gets an error.
+// Fifth part: with k handles (k in 1..=4) each drop_replica releases one handle; it is refused while other holders remain (they keep reading and writing)
+// and erases the document only as the last one.
 #[cfg(test)]
 mod verif_rp_c14_actor {
     use super::*;
@@ -251,5 +253,40 @@ mod verif_rp_c14_actor {
         }
         for sq in &all { probe_gates(sq, &ns, &author, &remote, &msg).await; }
         println!("c14_actor: {} state prefixes probed", all.len());
+    }
+
+    /// dropping a document releases ONE handle (like a close) and erases the document only if that was the last one: with k handles (k in 1..=4)
+    /// a drop is refused while others hold it, they keep reading and writing, and the k-th drop erases it
+    #[tokio::test]
+    async fn drop_releases_one_handle_and_erases_only_a_closed_document() {
+        let mut rng = rand::rng();
+        for k in 1usize..=4 {
+            let ns = NamespaceSecret::new(&mut rng);
+            let author = Author::new(&mut rng);
+            let mut store = Store::memory();
+            store.import_namespace(ns.clone().into()).unwrap();
+            store.import_author(author.clone()).unwrap();
+            let handle = SyncHandle::spawn(store, None, "verif".to_string());
+            let id = ns.id();
+            for _ in 0..k { handle.open(id, OpenOpts::default()).await.unwrap(); }
+            handle.insert_local(id, author.id(), b"first".to_vec().into(), Hash::new(b"first"), 5).await.unwrap();
+            for d in 1..=k {
+                let r = handle.drop_replica(id).await;
+                let left = k - d;
+                if left > 0 {
+                    assert!(r.is_err(), "WITNESS drop number {d} of a document with {k} handles succeeded although {left} holder(s) remain");
+                    let st = handle.get_state(id).await;
+                    assert_eq!(st.as_ref().ok().map(|s| s.handles), Some(left), "WITNESS after drop number {d} of {k} handles the document reports {st:?}, expected {left} handle(s)");
+                    let got = handle.get_exact(id, author.id(), b"first".to_vec().into(), false).await;
+                    assert!(matches!(got, Ok(Some(_))), "WITNESS after a refused drop ({d} of {k}) the acknowledged entry is gone: {got:?}");
+                    let w = handle.insert_local(id, author.id(), format!("later{d}").into_bytes().into(), Hash::new(b"x"), 1).await;
+                    assert!(w.is_ok(), "WITNESS after a refused drop ({d} of {k}) the remaining holders cannot write: {w:?}");
+                } else {
+                    assert!(r.is_ok(), "WITNESS the drop by the last holder ({k} handles) is refused: {r:?}");
+                    assert!(handle.open(id, OpenOpts::default()).await.is_err(), "WITNESS a dropped document can still be opened");
+                }
+            }
+            handle.shutdown().await.unwrap();
+        }
     }
 }
